@@ -3,14 +3,13 @@
 
 use crate::rng::mix;
 use crate::sched::{BatchDriver, BatchScheduler, Decider, Policy, SchedState};
-use crate::simsource::{to_le_bytes, SimSource};
+use crate::simsource::SimSource;
 use crate::workload::Workload;
 use flacenc::bitsink::ByteSink;
 use flacenc::component::{BitRepr, Stream};
 use flacenc::error::EncodeError;
 use flacenc::source::{Context, Fill, FrameBuf};
 use flacenc::verif;
-use md5::{Digest, Md5};
 use serde::{Deserialize, Serialize};
 use std::cell::RefCell;
 use std::rc::Rc;
@@ -166,9 +165,7 @@ fn body() {
         Err(e) => (Err(err_info(e)), 0),
     };
     drop(res);
-    let mut bb = vec![];
-    to_le_bytes(&src.handed, src.bytes_per_sample(), &mut bb);
-    let handed_md5: [u8; 16] = Md5::digest(&bb).into();
+    let handed_md5: [u8; 16] = src.handed_md5();
     let out = Outcome {
         result,
         frames,
@@ -178,7 +175,7 @@ fn body() {
         reads_after_error: src.reads_after_error,
         reported: src.reported,
         handed_md5,
-        handed_len: src.handed.len(),
+        handed_len: src.handed_len,
         probes: (src.probes_tried, src.probes_refused),
         fired: {
             let mut f = src.fired.clone();
